@@ -212,7 +212,8 @@ class DESolver:
             X0_flat, dt = self.iterator(self._getdXdt, currTime, self._flattenX(X0), self._updateX)
             X0 = self._unflattenX(X0_flat, self._X0)
             
-            currTime += dt
+            #dt is at most tf - currTime, but the floating point sum can land one rounding step beyond tf
+            currTime = min(currTime + dt, tf)
             X0, stop = self.postProcess(currTime, X0)
             i += 1
 
